@@ -56,16 +56,17 @@ def canonicalize_url(
     if strip_fragment:
         fragment = None
 
+    # Path normalization
+    # NOTE: unreserved characters such as "." must be unescaped before resolving
+    # dot segments, and the path can become empty once resolved
+    path = normpath(safely_unquote_path(path))
+
     # Empty path etc.
     if not path or path == "/":
         if not query and not fragment:
             path = ""
         else:
             path = "/"
-
-    # Path normalization
-    else:
-        path = normpath(path)
 
     # Quotes
     if user:
